@@ -711,12 +711,18 @@ func UnmarshalText(desc protoreflect.MessageDescriptor, data []byte) (*Message, 
 }
 
 // unmarshalData constructs a Starlark proto.Message by decoding binary or text data.
-func unmarshalData(desc protoreflect.MessageDescriptor, data []byte, binary bool) (*Message, error) {
+func unmarshalData(desc protoreflect.MessageDescriptor, data []byte, binary bool) (msg *Message, err2 error) {
 	m := &Message{
 		msg:    newMessage(desc),
 		frozen: new(bool),
 	}
 	var err error
+	defer func() {
+		// The decoder for dynamic messages panics on some malformed map entries.
+		if r := recover(); r != nil {
+			msg, err2 = nil, fmt.Errorf("unmarshalling %s failed: %v", desc.FullName(), r)
+		}
+	}()
 	if binary {
 		err = proto.Unmarshal(data, m.Message())
 	} else {
